@@ -16,9 +16,18 @@ def gen_trace(rng, tid):
     pc = rng.choice([1, 2, 3, 4, 5, 7, 8])
     ops = [{"op": "create_stream", "name": "s", "id": 1},
            {"op": "create_topic", "stream": 1, "name": "t", "parts": pc, "id": 1},
-           {"op": "create_group", "stream": 1, "topic": 1, "name": "g", "id": 1}]
+           {"op": "create_group", "stream": 1, "topic": 1, "name": "g", "id": 1},
+           # a second topic of the same stream with a group of the same number: memberships there must not interfere
+           {"op": "create_topic", "stream": 1, "name": "t2", "parts": 2, "id": 2},
+           {"op": "create_group", "stream": 1, "topic": 2, "name": "g", "id": 1}]
     nid = [1]
     connected, joined = set(), set()
+    decoy = set()
+
+    def decoy_join(c):
+        if rng.random() < 0.5 and c not in decoy:
+            ops.append({"op": "join_group", "c": c, "stream": 1, "topic": 2, "group": 1})
+            decoy.add(c)
 
     def send_all(k):
         for p in range(1, cur_pc[0] + 1):
@@ -36,9 +45,12 @@ def gen_trace(rng, tid):
                 ops.append({"op": "login", "c": c, "user": "iggy", "password": "iggy"})
                 ops.append({"op": "get_me", "c": c})
                 connected.add(c)
+            if rng.random() < 0.5:
+                decoy_join(c)
             ops.append({"op": "join_group", "c": c, "stream": 1, "topic": 1, "group": 1})
             joined.add(c)
             ops.append({"op": "get_group", "stream": 1, "topic": 1, "group": 1})
+            decoy_join(c)
         elif x < 0.30 and joined:
             c = rng.choice(sorted(joined))
             ops.append({"op": "leave_group", "c": c, "stream": 1, "topic": 1, "group": 1})
@@ -49,6 +61,7 @@ def gen_trace(rng, tid):
             ops.append({"op": "disconnect", "c": c})
             joined.discard(c)
             connected.discard(c)
+            decoy.discard(c)
             ops.append({"op": "get_group", "stream": 1, "topic": 1, "group": 1})
         elif x < 0.44:
             n = rng.choice([1, 1, 2, 3])
@@ -68,7 +81,8 @@ def gen_trace(rng, tid):
             ops.append({"op": "poll", "c": c, "stream": 1, "topic": 1, "kind": "next", "value": 0, "count": rng.choice([1, 2, 5]),
                         "consumer": {"kind": "group", "id": 1}, "auto_commit": True})
     ops.append({"op": "get_group", "stream": 1, "topic": 1, "group": 1})
-    return {"id": tid, "cfg": {"req": 1000, "seg_size": 1000000, "cache": False}, "ops": ops, "pc": pc}
+    ops.append({"op": "get_group", "stream": 1, "topic": 2, "group": 1})       # must stay the last operation (see run)
+    return {"id": tid, "cfg": {"req": 1000, "seg_size": 1000000, "cache": False}, "ops": ops, "pc": pc, "decoy": sorted(decoy)}
 
 
 def order_from(listing):
@@ -95,6 +109,10 @@ def analyse(t, ob):
                 return None, "op %d %s failed: %s" % (i, k, json.dumps(o))
         if k == "get_me":
             cid[op["c"]] = o["client_id"]
+        elif k == "join_group" and op["topic"] == 2:
+            pass
+        elif k == "get_group" and op["topic"] == 2:
+            pass
         elif k == "join_group":
             pending = ("join", cid[op["c"]])
         elif k == "leave_group":
@@ -149,6 +167,14 @@ def run(out, tier, seed, gate):
             out.violation("crash-%s" % t["id"], {"kind": "impl-crash", "mode": "srv", "trace": t, "detail": str(ob)[-1500:]})
             continue
         info, err = analyse(t, ob)
+        if not err:
+            # the group of the second topic: exactly the connected clients that joined it, the two partitions split among them
+            d = ob["outs"][-1]
+            got = sorted(p for m in d.get("members", []) for p in m["parts"])
+            if d.get("r") != "ok" or d["members_count"] != len(t["decoy"]) or (t["decoy"] and got != [1, 2]) or (not t["decoy"] and got):
+                out.violation("other-topic-%s" % t["id"], {"kind": "spec-monitor", "mode": "srv", "trace": {k: v for k, v in t.items() if k in ("id", "cfg", "ops")}, "listing": d, "expected_members": len(t["decoy"]),
+                                                          "what": "the group of the same number in another topic of the stream does not list exactly its connected members with the partitions split among them"})
+                continue
         if err:
             out.violation("fail-%s" % t["id"], {"kind": "spec-monitor", "mode": "srv", "trace": t, "what": "a valid consumer-group command failed", "detail": err})
             continue
